@@ -772,3 +772,12 @@ def summarize(results):
             "switch_points": len(switches)},
         "api_progress_matrix": apis,
     }
+
+
+def static_checks(tier, seed):
+    """Real threading.Timer, real clock, real stdout in fresh interpreters."""
+    import os
+    from .. import fidelity
+    src = os.environ.get("OQUPY_SRC", "/repo")
+    violations, report = fidelity.real_timer_cases(src)
+    return {"violations": violations, "report": {"real_timer_runs": report}}
